@@ -199,6 +199,31 @@ def _clear(it, c, a):
     del deref(a[0]).items[:]; return UNIT
 
 
+@model('Vec::retain', 'Vec::retain_mut')
+def _vec_retain(it, c, a):
+    v = deref(a[0]); xs = v.items
+    keep = []
+    for i, x in enumerate(list(xs)):
+        if it.choose_bool(it.call_closure(a[1], [RefV(xs, i)])):
+            keep.append(xs[i])
+    xs[:] = keep
+    return UNIT
+
+
+@model('Vec::reverse')
+def _vec_reverse(it, c, a):
+    deref(a[0]).items.reverse(); return UNIT
+
+
+@model('Vec::swap_remove')
+def _vec_swap_remove(it, c, a):
+    xs = deref(a[0]).items; i = cint(it, a[1], 'Vec::swap_remove index', fork=True)
+    if i >= len(xs):
+        raise Panic('vec-swap-remove-oob', 'swap_remove index (is %d) should be < len (is %d)' % (i, len(xs)), it.stack)
+    x = xs[i]; xs[i] = xs[-1]; xs.pop()
+    return x
+
+
 @model('Vec::insert')
 def _insert(it, c, a):
     xs = deref(a[0]).items; i = cint(it, a[1], 'Vec::insert index', fork=True)
